@@ -6,6 +6,8 @@ functional, withheld-from).  usage: t1_ontology.py <repo> <out.json>"""
 import json, sys, os
 
 FILES = ["activitystreams.jsonld", "security-v1.jsonld", "toot.jsonld", "forgefed.jsonld"]
+# an extension vocabulary layered on the shipped ones (C15)
+FILES = FILES + [f for f in os.environ.get("T1_EXTRA", "").split(",") if f]
 
 
 def aslist(x):
